@@ -121,7 +121,7 @@ pub fn replay(sc: &Value) -> Value {
     let fail = sc["sink"].as_str() == Some("err");
     let script: Vec<String> = sc["sink_script"].as_array().map(|a| a.iter().map(|x| x.as_str().unwrap_or("ok").to_string()).collect()).unwrap_or_default();
     let fail = script.first().map(|s| s.starts_with("err")).unwrap_or(fail);
-    let sink = RecSink { lines: lines.clone(), fail, script };
+    let sink = RecSink { lines: lines.clone(), fail, script: script.clone() };
     let h2 = handled.clone();
     let mut b = StatsdClient::builder(&prefix, sink).with_error_handler(move |e: MetricError| {
         h2.lock().unwrap().push((kind_name(&e), e.to_string()));
@@ -167,226 +167,244 @@ pub fn replay(sc: &Value) -> Value {
             }
         }};
     }
-    let res = catch_unwind(AssertUnwindSafe(|| -> Option<Result<String, (String, String)>> {
-        match (tr.as_str(), vty.as_str()) {
-            ("Counted", "i64") => call!(count, count_with_tags, parse_i64(&vals[0])),
-            ("Counted", "i32") => call!(count, count_with_tags, parse_i64(&vals[0]) as i32),
-            ("Counted", "u64") => call!(count, count_with_tags, parse_u64(&vals[0])),
-            ("Counted", "u32") => call!(count, count_with_tags, parse_u64(&vals[0]) as u32),
-            ("CountedExt", "incr") => {
-                if plain {
-                    Some(outcome(c.incr(k)))
-                } else {
-                    finish(c.incr_with_tags(k), d)
+    let repeat = sc["repeat"].as_u64().unwrap_or(1).max(1) as usize;
+    let mut all_viol: Vec<Value> = vec![];
+    let mut log: Vec<Value> = vec![];
+    for call_no in 0..repeat {
+        let sent_before = lines.lock().unwrap().len();
+        let handled_before = handled.lock().unwrap().len();
+        // outcome of the sink for the FIRST emit of this call (the oracle needs to know whether it was refused)
+        let fail = script.get(sent_before).map(|s| s.starts_with("err")).unwrap_or(fail);
+        let res = catch_unwind(AssertUnwindSafe(|| -> Option<Result<String, (String, String)>> {
+            match (tr.as_str(), vty.as_str()) {
+                ("Counted", "i64") => call!(count, count_with_tags, parse_i64(&vals[0])),
+                ("Counted", "i32") => call!(count, count_with_tags, parse_i64(&vals[0]) as i32),
+                ("Counted", "u64") => call!(count, count_with_tags, parse_u64(&vals[0])),
+                ("Counted", "u32") => call!(count, count_with_tags, parse_u64(&vals[0]) as u32),
+                ("CountedExt", "incr") => {
+                    if plain {
+                        Some(outcome(c.incr(k)))
+                    } else {
+                        finish(c.incr_with_tags(k), d)
+                    }
                 }
-            }
-            ("CountedExt", "decr") => {
-                if plain {
-                    Some(outcome(c.decr(k)))
-                } else {
-                    finish(c.decr_with_tags(k), d)
+                ("CountedExt", "decr") => {
+                    if plain {
+                        Some(outcome(c.decr(k)))
+                    } else {
+                        finish(c.decr_with_tags(k), d)
+                    }
                 }
+                ("Timed", "u64") => call!(time, time_with_tags, parse_u64(&vals[0])),
+                ("Timed", "Duration") => call!(time, time_with_tags, parse_dur(&vals[0])),
+                ("Timed", "Vec<u64>") => call!(time, time_with_tags, vals.iter().map(parse_u64).collect::<Vec<u64>>()),
+                ("Timed", "Vec<Duration>") => call!(time, time_with_tags, vals.iter().map(parse_dur).collect::<Vec<Duration>>()),
+                ("Gauged", "u64") => call!(gauge, gauge_with_tags, parse_u64(&vals[0])),
+                ("Gauged", "f64") => call!(gauge, gauge_with_tags, f64::from_bits(parse_u64(&vals[0]))),
+                ("Metered", "u64") => call!(meter, meter_with_tags, parse_u64(&vals[0])),
+                ("Histogrammed", "u64") => call!(histogram, histogram_with_tags, parse_u64(&vals[0])),
+                ("Histogrammed", "f64") => call!(histogram, histogram_with_tags, f64::from_bits(parse_u64(&vals[0]))),
+                ("Histogrammed", "Duration") => call!(histogram, histogram_with_tags, parse_dur(&vals[0])),
+                ("Histogrammed", "Vec<u64>") => call!(histogram, histogram_with_tags, vals.iter().map(parse_u64).collect::<Vec<u64>>()),
+                ("Histogrammed", "Vec<f64>") => call!(histogram, histogram_with_tags, vals.iter().map(|v| f64::from_bits(parse_u64(v))).collect::<Vec<f64>>()),
+                ("Histogrammed", "Vec<Duration>") => call!(histogram, histogram_with_tags, vals.iter().map(parse_dur).collect::<Vec<Duration>>()),
+                ("Distributed", "u64") => call!(distribution, distribution_with_tags, parse_u64(&vals[0])),
+                ("Distributed", "f64") => call!(distribution, distribution_with_tags, f64::from_bits(parse_u64(&vals[0]))),
+                ("Distributed", "Vec<u64>") => call!(distribution, distribution_with_tags, vals.iter().map(parse_u64).collect::<Vec<u64>>()),
+                ("Distributed", "Vec<f64>") => call!(distribution, distribution_with_tags, vals.iter().map(|v| f64::from_bits(parse_u64(v))).collect::<Vec<f64>>()),
+                ("Setted", "i64") => call!(set, set_with_tags, parse_i64(&vals[0])),
+                _ => Some(Err(("unknown-entry".into(), format!("{} {}", tr, vty)))),
             }
-            ("Timed", "u64") => call!(time, time_with_tags, parse_u64(&vals[0])),
-            ("Timed", "Duration") => call!(time, time_with_tags, parse_dur(&vals[0])),
-            ("Timed", "Vec<u64>") => call!(time, time_with_tags, vals.iter().map(parse_u64).collect::<Vec<u64>>()),
-            ("Timed", "Vec<Duration>") => call!(time, time_with_tags, vals.iter().map(parse_dur).collect::<Vec<Duration>>()),
-            ("Gauged", "u64") => call!(gauge, gauge_with_tags, parse_u64(&vals[0])),
-            ("Gauged", "f64") => call!(gauge, gauge_with_tags, f64::from_bits(parse_u64(&vals[0]))),
-            ("Metered", "u64") => call!(meter, meter_with_tags, parse_u64(&vals[0])),
-            ("Histogrammed", "u64") => call!(histogram, histogram_with_tags, parse_u64(&vals[0])),
-            ("Histogrammed", "f64") => call!(histogram, histogram_with_tags, f64::from_bits(parse_u64(&vals[0]))),
-            ("Histogrammed", "Duration") => call!(histogram, histogram_with_tags, parse_dur(&vals[0])),
-            ("Histogrammed", "Vec<u64>") => call!(histogram, histogram_with_tags, vals.iter().map(parse_u64).collect::<Vec<u64>>()),
-            ("Histogrammed", "Vec<f64>") => call!(histogram, histogram_with_tags, vals.iter().map(|v| f64::from_bits(parse_u64(v))).collect::<Vec<f64>>()),
-            ("Histogrammed", "Vec<Duration>") => call!(histogram, histogram_with_tags, vals.iter().map(parse_dur).collect::<Vec<Duration>>()),
-            ("Distributed", "u64") => call!(distribution, distribution_with_tags, parse_u64(&vals[0])),
-            ("Distributed", "f64") => call!(distribution, distribution_with_tags, f64::from_bits(parse_u64(&vals[0]))),
-            ("Distributed", "Vec<u64>") => call!(distribution, distribution_with_tags, vals.iter().map(parse_u64).collect::<Vec<u64>>()),
-            ("Distributed", "Vec<f64>") => call!(distribution, distribution_with_tags, vals.iter().map(|v| f64::from_bits(parse_u64(v))).collect::<Vec<f64>>()),
-            ("Setted", "i64") => call!(set, set_with_tags, parse_i64(&vals[0])),
-            _ => Some(Err(("unknown-entry".into(), format!("{} {}", tr, vty)))),
-        }
-    }));
-    let (result, panicked) = match res {
-        Ok(r) => (r, None),
-        Err(p) => (None, Some(p.downcast_ref::<String>().cloned().or_else(|| p.downcast_ref::<&str>().map(|s| s.to_string())).unwrap_or_default())),
-    };
+        }));
+        let (result, panicked) = match res {
+            Ok(r) => (r, None),
+            Err(p) => (None, Some(p.downcast_ref::<String>().cloned().or_else(|| p.downcast_ref::<&str>().map(|s| s.to_string())).unwrap_or_default())),
+        };
 
     // ---------------- oracle -----------------------------------------------------------------
-    let mut viol: Vec<Value> = vec![];
-    let mut add = |prop: &str, clause: &str, detail: String| viol.push(json!({"prop": prop, "clause": clause, "detail": detail}));
-    let code = match tr.as_str() {
-        "Counted" | "CountedExt" => "c",
-        "Timed" => "ms",
-        "Gauged" => "g",
-        "Metered" => "m",
-        "Histogrammed" => "h",
-        "Distributed" => "d",
-        "Setted" => "s",
-        _ => "?",
-    };
-    // value tokens the property demands, or None when the value must be rejected
-    let mut tokens: Option<Vec<String>> = Some(vec![]);
-    {
-        let push = |t: &mut Option<Vec<String>>, x: String| {
-            if let Some(v) = t.as_mut() {
-                v.push(x)
-            }
+        let mut viol: Vec<Value> = vec![];
+        let mut add = |prop: &str, clause: &str, detail: String| viol.push(json!({"prop": prop, "clause": clause, "detail": detail}));
+        let code = match tr.as_str() {
+            "Counted" | "CountedExt" => "c",
+            "Timed" => "ms",
+            "Gauged" => "g",
+            "Metered" => "m",
+            "Histogrammed" => "h",
+            "Distributed" => "d",
+            "Setted" => "s",
+            _ => "?",
         };
-        match (tr.as_str(), vty.as_str()) {
-            ("CountedExt", "incr") => push(&mut tokens, "1".into()),
-            ("CountedExt", "decr") => push(&mut tokens, "-1".into()),
-            (_, "i64") => push(&mut tokens, parse_i64(&vals[0]).to_string()),
-            (_, "i32") => push(&mut tokens, (parse_i64(&vals[0]) as i32).to_string()),
-            (_, "u64") => push(&mut tokens, parse_u64(&vals[0]).to_string()),
-            (_, "u32") => push(&mut tokens, (parse_u64(&vals[0]) as u32).to_string()),
-            (_, "f64") => push(&mut tokens, f64::from_bits(parse_u64(&vals[0])).to_string()),
-            (_, "Vec<u64>") => vals.iter().for_each(|v| push(&mut tokens, parse_u64(v).to_string())),
-            (_, "Vec<f64>") => vals.iter().for_each(|v| push(&mut tokens, f64::from_bits(parse_u64(v)).to_string())),
-            (t, "Duration") | (t, "Vec<Duration>") => {
-                for v in vals.iter() {
-                    let dd = parse_dur(v);
-                    let n: u128 = if t == "Timed" {
-                        (dd.as_secs() as u128) * 1000 + (dd.subsec_nanos() as u128) / 1_000_000
-                    } else {
-                        (dd.as_secs() as u128) * 1_000_000_000 + dd.subsec_nanos() as u128
-                    };
-                    if n > u64::MAX as u128 {
-                        tokens = None;
-                        break;
-                    }
-                    push(&mut tokens, n.to_string());
+        // value tokens the property demands, or None when the value must be rejected
+        let mut tokens: Option<Vec<String>> = Some(vec![]);
+        {
+            let push = |t: &mut Option<Vec<String>>, x: String| {
+                if let Some(v) = t.as_mut() {
+                    v.push(x)
                 }
-            }
-            _ => {}
-        }
-        if let Some(v) = &tokens {
-            if v.is_empty() {
-                tokens = None; // "there is at least one value"
-            }
-        }
-    }
-    let name = if prefix.is_empty() { key.clone() } else { format!("{}.{}", prefix.trim_end_matches('.'), key) };
-    let expected: Option<String> = tokens.as_ref().map(|t| {
-        let mut l = format!("{}:{}|{}", name, t.join(":"), code);
-        if let Some(r) = deco.rate {
-            l.push_str(&format!("|@{}", r));
-        }
-        let mut tags: Vec<String> = vec![];
-        for (i, kk) in dtags.iter().enumerate() {
-            if kk == "kv" {
-                tags.push(format!("{}:{}", s(sc, &format!("d{}k", i)), s(sc, &format!("d{}v", i))));
-            } else {
-                tags.push(s(sc, &format!("d{}v", i)).to_string());
-            }
-        }
-        for (kk, vv) in deco.tags.iter() {
-            match kk {
-                Some(kk) => tags.push(format!("{}:{}", kk, vv)),
-                None => tags.push(vv.to_string()),
-            }
-        }
-        if !tags.is_empty() {
-            l.push_str("|#");
-            l.push_str(&tags.join(","));
-        }
-        if let Some(cid) = deco.cid {
-            l.push_str(&format!("|c:{}", cid));
-        } else if cfg["default_container_id"].as_bool() == Some(true) {
-            l.push_str(&format!("|c:{}", s(sc, "dcid")));
-        }
-        if let Some(t) = deco.ts {
-            l.push_str(&format!("|T{}", t));
-        }
-        l
-    });
-    let sent = lines.lock().unwrap().clone();
-    let hs = handled.lock().unwrap().clone();
-    if let Some(msg) = &panicked {
-        add("C20", "no-panic", format!("the call panicked: {}", msg));
-        add("C03", "no-panic", format!("the call panicked: {}", msg));
-    } else {
-        match &expected {
-            Some(exp) => {
-                if sent.len() != 1 {
-                    add("C03", "exactly-one-emit", format!("valid value: the sink was handed {} strings", sent.len()));
-                    add("C01", "single-emit", format!("valid value: the sink was handed {} strings: {:?}", sent.len(), sent));
-                    if sent.is_empty() {
-                        add("C02", "valid-is-sent", "a valid value was rejected".into());
+            };
+            match (tr.as_str(), vty.as_str()) {
+                ("CountedExt", "incr") => push(&mut tokens, "1".into()),
+                ("CountedExt", "decr") => push(&mut tokens, "-1".into()),
+                (_, "i64") => push(&mut tokens, parse_i64(&vals[0]).to_string()),
+                (_, "i32") => push(&mut tokens, (parse_i64(&vals[0]) as i32).to_string()),
+                (_, "u64") => push(&mut tokens, parse_u64(&vals[0]).to_string()),
+                (_, "u32") => push(&mut tokens, (parse_u64(&vals[0]) as u32).to_string()),
+                (_, "f64") => push(&mut tokens, f64::from_bits(parse_u64(&vals[0])).to_string()),
+                (_, "Vec<u64>") => vals.iter().for_each(|v| push(&mut tokens, parse_u64(v).to_string())),
+                (_, "Vec<f64>") => vals.iter().for_each(|v| push(&mut tokens, f64::from_bits(parse_u64(v)).to_string())),
+                (t, "Duration") | (t, "Vec<Duration>") => {
+                    for v in vals.iter() {
+                        let dd = parse_dur(v);
+                        let n: u128 = if t == "Timed" {
+                            (dd.as_secs() as u128) * 1000 + (dd.subsec_nanos() as u128) / 1_000_000
+                        } else {
+                            (dd.as_secs() as u128) * 1_000_000_000 + dd.subsec_nanos() as u128
+                        };
+                        if n > u64::MAX as u128 {
+                            tokens = None;
+                            break;
+                        }
+                        push(&mut tokens, n.to_string());
                     }
                 }
-                if let Some(got) = sent.first() {
-                    if got != exp {
-                        add("C01", "line", format!("sink received {:?}, the property demands {:?}", got, exp));
-                        // which part differs?
-                        let head = |l: &str| l.split('|').take(2).collect::<Vec<_>>().join("|");
-                        let section = |l: &str, p: &str| l.split('|').skip(2).find(|x| x.starts_with(p)).map(|x| x.to_string());
-                        if head(got) != head(exp) {
-                            let v = |l: &str| l.split('|').next().unwrap_or("").rsplit_once(':').map(|x| x.1.to_string());
-                            if v(got) != v(exp) || got.split('|').next().map(|x| x.matches(':').count()) != exp.split('|').next().map(|x| x.matches(':').count()) {
-                                add("C02", "value-on-wire", format!("value part of {:?} differs from {:?}", got, exp));
-                            }
-                        }
-                        if section(got, "@") != section(exp, "@") {
-                            add("C02", "rate-on-wire", format!("sampling rate section of {:?} differs from {:?}", got, exp));
-                        }
-                        if section(got, "#") != section(exp, "#") || section(got, "c:") != section(exp, "c:") {
-                            add("C04", "decoration", format!("tag / container sections of {:?} differ from {:?}", got, exp));
+                _ => {}
+            }
+            if let Some(v) = &tokens {
+                if v.is_empty() {
+                    tokens = None; // "there is at least one value"
+                }
+            }
+        }
+        let name = if prefix.is_empty() { key.clone() } else { format!("{}.{}", prefix.trim_end_matches('.'), key) };
+        let expected: Option<String> = tokens.as_ref().map(|t| {
+            let mut l = format!("{}:{}|{}", name, t.join(":"), code);
+            if let Some(r) = deco.rate {
+                l.push_str(&format!("|@{}", r));
+            }
+            let mut tags: Vec<String> = vec![];
+            for (i, kk) in dtags.iter().enumerate() {
+                if kk == "kv" {
+                    tags.push(format!("{}:{}", s(sc, &format!("d{}k", i)), s(sc, &format!("d{}v", i))));
+                } else {
+                    tags.push(s(sc, &format!("d{}v", i)).to_string());
+                }
+            }
+            for (kk, vv) in deco.tags.iter() {
+                match kk {
+                    Some(kk) => tags.push(format!("{}:{}", kk, vv)),
+                    None => tags.push(vv.to_string()),
+                }
+            }
+            if !tags.is_empty() {
+                l.push_str("|#");
+                l.push_str(&tags.join(","));
+            }
+            if let Some(cid) = deco.cid {
+                l.push_str(&format!("|c:{}", cid));
+            } else if cfg["default_container_id"].as_bool() == Some(true) {
+                l.push_str(&format!("|c:{}", s(sc, "dcid")));
+            }
+            if let Some(t) = deco.ts {
+                l.push_str(&format!("|T{}", t));
+            }
+            l
+        });
+        let sent: Vec<String> = lines.lock().unwrap()[sent_before..].to_vec();
+        let hs: Vec<(String, String)> = handled.lock().unwrap()[handled_before..].to_vec();
+        if let Some(msg) = &panicked {
+            add("C20", "no-panic", format!("the call panicked: {}", msg));
+            add("C03", "no-panic", format!("the call panicked: {}", msg));
+        } else {
+            match &expected {
+                Some(exp) => {
+                    if sent.len() != 1 {
+                        add("C03", "exactly-one-emit", format!("valid value: the sink was handed {} strings", sent.len()));
+                        add("C01", "single-emit", format!("valid value: the sink was handed {} strings: {:?}", sent.len(), sent));
+                        if sent.is_empty() {
+                            add("C02", "valid-is-sent", "a valid value was rejected".into());
                         }
                     }
-                    match (&result, fail) {
-                        (Some(Ok(m)), false) => {
-                            if m != got {
-                                add("C03", "ok-carries-sent-text", format!("Ok({:?}) but the sink received {:?}", m, got));
+                    if let Some(got) = sent.first() {
+                        if got != exp {
+                            add("C01", "line", format!("sink received {:?}, the property demands {:?}", got, exp));
+                            // which part differs?
+                            let head = |l: &str| l.split('|').take(2).collect::<Vec<_>>().join("|");
+                            let section = |l: &str, p: &str| l.split('|').skip(2).find(|x| x.starts_with(p)).map(|x| x.to_string());
+                            if head(got) != head(exp) {
+                                let v = |l: &str| l.split('|').next().unwrap_or("").rsplit_once(':').map(|x| x.1.to_string());
+                                if v(got) != v(exp) || got.split('|').next().map(|x| x.matches(':').count()) != exp.split('|').next().map(|x| x.matches(':').count()) {
+                                    add("C02", "value-on-wire", format!("value part of {:?} differs from {:?}", got, exp));
+                                }
+                            }
+                            if section(got, "@") != section(exp, "@") {
+                                add("C02", "rate-on-wire", format!("sampling rate section of {:?} differs from {:?}", got, exp));
+                            }
+                            if section(got, "#") != section(exp, "#") || section(got, "c:") != section(exp, "c:") {
+                                add("C04", "decoration", format!("tag / container sections of {:?} differ from {:?}", got, exp));
                             }
                         }
-                        (Some(Ok(_)), true) => add("C03", "err-result", "the sink refused the metric but the call returned Ok".into()),
-                        (Some(Err((k, msg))), true) => {
-                            if k != "IoError" || !msg.starts_with("sink-refused#") {
-                                add("C03", "io-error-carries-source", format!("expected an I/O-kind error carrying the sink's error, got {} {:?}", k, msg));
+                        match (&result, fail) {
+                            (Some(Ok(m)), false) => {
+                                if m != got {
+                                    add("C03", "ok-carries-sent-text", format!("Ok({:?}) but the sink received {:?}", m, got));
+                                }
                             }
+                            (Some(Ok(_)), true) => add("C03", "err-result", "the sink refused the metric but the call returned Ok".into()),
+                            (Some(Err((k, msg))), true) => {
+                                if k != "IoError" || !msg.starts_with("sink-refused#") {
+                                    add("C03", "io-error-carries-source", format!("expected an I/O-kind error carrying the sink's error, got {} {:?}", k, msg));
+                                }
+                            }
+                            (Some(Err((k, msg))), false) => add("C03", "ok-result", format!("the sink accepted the metric but the call returned Err({} {:?})", k, msg)),
+                            (None, _) => {}
                         }
-                        (Some(Err((k, msg))), false) => add("C03", "ok-result", format!("the sink accepted the metric but the call returned Err({} {:?})", k, msg)),
-                        (None, _) => {}
-                    }
-                    if deco.quiet {
-                        if fail {
-                            if hs.len() != 1 || hs[0].0 != "IoError" || !hs[0].1.starts_with("sink-refused#") {
-                                add("C03", "handler-once", format!("sink refused: handler calls {:?}", hs));
+                        if deco.quiet {
+                            if fail {
+                                if hs.len() != 1 || hs[0].0 != "IoError" || !hs[0].1.starts_with("sink-refused#") {
+                                    add("C03", "handler-once", format!("sink refused: handler calls {:?}", hs));
+                                }
+                            } else if !hs.is_empty() {
+                                add("C03", "handler-silent-on-success", format!("handler invoked on success: {:?}", hs));
                             }
                         } else if !hs.is_empty() {
-                            add("C03", "handler-silent-on-success", format!("handler invoked on success: {:?}", hs));
+                            add("C03", "handler-not-used", format!("handler invoked by a non-quiet call: {:?}", hs));
                         }
-                    } else if !hs.is_empty() {
-                        add("C03", "handler-not-used", format!("handler invoked by a non-quiet call: {:?}", hs));
                     }
                 }
-            }
-            None => {
-                if !sent.is_empty() {
-                    add("C03", "rejected-not-sent", format!("a value that must be rejected was sent: {:?}", sent));
-                    add("C02", "rejected-not-sent", format!("a value that must be rejected was sent: {:?}", sent));
-                    if tokens.is_none() && vals.is_empty() {
-                        add("C01", "at-least-one-value", format!("a line without a value was sent: {:?}", sent));
+                None => {
+                    if !sent.is_empty() {
+                        add("C03", "rejected-not-sent", format!("a value that must be rejected was sent: {:?}", sent));
+                        add("C02", "rejected-not-sent", format!("a value that must be rejected was sent: {:?}", sent));
+                        if tokens.is_none() && vals.is_empty() {
+                            add("C01", "at-least-one-value", format!("a line without a value was sent: {:?}", sent));
+                        }
                     }
-                }
-                match &result {
-                    Some(Ok(m)) => {
-                        add("C03", "invalid-input-kind", format!("rejected value but the call returned Ok({:?})", m));
-                        add("C02", "invalid-input-kind", format!("rejected value but the call returned Ok({:?})", m));
+                    match &result {
+                        Some(Ok(m)) => {
+                            add("C03", "invalid-input-kind", format!("rejected value but the call returned Ok({:?})", m));
+                            add("C02", "invalid-input-kind", format!("rejected value but the call returned Ok({:?})", m));
+                        }
+                        Some(Err((k, _))) if k != "InvalidInput" => {
+                            add("C03", "invalid-input-kind", format!("rejected value reported as {}", k));
+                            add("C02", "invalid-input-kind", format!("rejected value reported as {}", k));
+                        }
+                        _ => {}
                     }
-                    Some(Err((k, _))) if k != "InvalidInput" => {
-                        add("C03", "invalid-input-kind", format!("rejected value reported as {}", k));
-                        add("C02", "invalid-input-kind", format!("rejected value reported as {}", k));
+                    if deco.quiet && sent.is_empty() && (hs.len() != 1 || hs[0].0 != "InvalidInput") {
+                        add("C03", "handler-once", format!("value rejected: handler calls {:?}", hs));
                     }
-                    _ => {}
-                }
-                if deco.quiet && sent.is_empty() && (hs.len() != 1 || hs[0].0 != "InvalidInput") {
-                    add("C03", "handler-once", format!("value rejected: handler calls {:?}", hs));
                 }
             }
         }
+
+        let _ = (&sent, &hs);
+        for mut v in viol {
+            if repeat > 1 {
+                v["detail"] = json!(format!("call #{}: {}", call_no + 1, v["detail"].as_str().unwrap_or("")));
+            }
+            all_viol.push(v);
+        }
+        log.push(json!({"sent": sent, "expected": expected, "result": format!("{:?}", result), "handler": format!("{:?}", hs)}));
     }
-    json!({"violations": viol, "sent": sent, "expected": expected, "result": format!("{:?}", result), "handler": format!("{:?}", hs)})
+    json!({"violations": all_viol, "calls": log})
 }
